@@ -387,6 +387,7 @@ def audit_ownership():
 
 
 # ------------------------------------------------------------------------------------------------ connect-by-call
+@guarded("koi", "hdl21.instance:_Instance.__call__")
 def call_obligations():
     """_Instance.__call__(**kwargs): the loop body located in the current source, executed for one keyword of each
     naming class - ordinary, leading underscore, every Instance keyword in `_specialcases`: each keyword reaches
